@@ -136,12 +136,56 @@ struct Answers {
     harness: Option<String>,
 }
 
+/// crustabri's default solver plus a call counter on the run's hub (budget enforcement only).
+struct Budgeted {
+    inner: Box<dyn crustabri::sat::SatSolver>,
+    hub: simsat::Hub,
+}
+
+impl Budgeted {
+    fn tick(&self) {
+        let mut h = self.hub.borrow_mut();
+        h.calls += 1;
+        if h.calls > h.call_budget {
+            h.budget_exceeded = true;
+            drop(h);
+            std::panic::panic_any(BudgetExceeded);
+        }
+    }
+}
+
+impl crustabri::sat::SatSolver for Budgeted {
+    fn add_clause(&mut self, cl: Vec<crustabri::sat::Literal>) {
+        self.inner.add_clause(cl)
+    }
+    fn solve(&mut self) -> crustabri::sat::SolvingResult {
+        self.tick();
+        self.inner.solve()
+    }
+    fn solve_under_assumptions(&mut self, assumptions: &[crustabri::sat::Literal]) -> crustabri::sat::SolvingResult {
+        self.tick();
+        self.inner.solve_under_assumptions(assumptions)
+    }
+    fn n_vars(&self) -> usize {
+        self.inner.n_vars()
+    }
+    fn add_listener(&mut self, listener: Box<dyn crustabri::sat::SolvingListener>) {
+        self.inner.add_listener(listener)
+    }
+    fn reserve(&mut self, new_max_id: usize) {
+        self.inner.reserve(new_max_id)
+    }
+}
+
 fn solve_presentation(af: &AAFramework<usize>, qs: &[usize], oracle: OracleCfg, budget: u64) -> Answers {
     let hub = simsat::new_hub(oracle);
     hub.borrow_mut().call_budget = u64::MAX;
     let fac = || -> Box<dyn Fn() -> Box<dyn crustabri::sat::SatSolver>> {
         if oracle.policy == Policy::Cadical {
-            Box::new(|| crustabri::sat::default_solver())
+            // the shipped backend, behind a wrapper that only counts calls against the same budget
+            // (an enumeration of thousands of preferred extensions must end as "skipped", not hang)
+            let h = std::rc::Rc::clone(&hub);
+            Box::new(move || Box::new(Budgeted { inner: crustabri::sat::default_solver(), hub: std::rc::Rc::clone(&h) }) as Box<dyn crustabri::sat::SatSolver>)
         } else {
             simsat::factory(&hub)
         }
